@@ -35,15 +35,15 @@ TEXT = {
  },
 
  "C02": {
-  "level": 'Machine-checked proofs (Coq, no axioms): node-level rules (up-to-date check for new votes, truncation only from the first conflict, follower holds request entries as sent, follower commit rule, leader append-only) and, on the abstract protocol (Props/C02.v when present), leader completeness and commit stability for every cluster size and interleaving with static voters. PARTIAL where stated: voter-set changes (C08) and snapshots are outside the abstract protocol. Tie: per-event differential execution + monitors (committed entry differs / leader misses committed entry). Cluster-level tie (Props/AbsTie.v): whole-cluster histories observed on real nodes (static membership, no snapshots) are checked on every run by the executable, proved-sound checker Abs/Exec.v to be runs of the abstract protocol these theorems are about, so the theorems hold of the observed projections (observed_* theorems); histories with membership changes or snapshots are covered by the node-level rules, correspondence and monitors only.',
+  "level": 'Machine-checked proofs (Coq, no axioms): node-level rules (up-to-date check for new votes, truncation only from the first conflict, follower holds request entries as sent, follower commit rule, leader append-only) and, on the abstract protocol (Props/C02.v when present), leader completeness and commit stability for every cluster size and interleaving with static voters. PARTIAL where stated: voter-set changes (C08) are outside the abstract protocol (snapshot installation and compaction are inside it). Tie: per-event differential execution + monitors (committed entry differs / leader misses committed entry). Cluster-level tie (Props/AbsTie.v): whole-cluster histories observed on real nodes (static membership; snapshots, compaction and snapshot installation included) are checked on every run by the executable, proved-sound checker Abs/Exec.v to be runs of the abstract protocol these theorems are about, so the theorems hold of the observed projections (observed_* theorems); histories with membership changes are covered by the node-level rules, correspondence and monitors only.',
   "design_ref": "DESIGN.md 5 (C02), Appendix E", "note": NODE_NOTE,
   "technique": 'Coq proofs (rules + abstract protocol invariant) + differential correspondence + monitors',
  }, "C03": {
-  "level": 'Machine-checked proofs (Coq, no axioms): the state machine is fed exactly the entries after its position up to the commit index, contiguously and in order (follower path and leader queue path); on the abstract protocol (Props/C03.v when present) committed prefixes of any two nodes are prefix-related. Tie: per-event differential execution (fsm.index/term after every event) + monitor comparing the recorded command lists of all state machines after every event. Cluster-level tie (Props/AbsTie.v): whole-cluster histories observed on real nodes (static membership, no snapshots) are checked on every run by the executable, proved-sound checker Abs/Exec.v to be runs of the abstract protocol these theorems are about, so the theorems hold of the observed projections (observed_* theorems); histories with membership changes or snapshots are covered by the node-level rules, correspondence and monitors only.',
+  "level": 'Machine-checked proofs (Coq, no axioms): the state machine is fed exactly the entries after its position up to the commit index, contiguously and in order (follower path and leader queue path); on the abstract protocol (Props/C03.v when present) committed prefixes of any two nodes are prefix-related. Tie: per-event differential execution (fsm.index/term after every event) + monitor comparing the recorded command lists of all state machines after every event. Cluster-level tie (Props/AbsTie.v): whole-cluster histories observed on real nodes (static membership; snapshots, compaction and snapshot installation included) are checked on every run by the executable, proved-sound checker Abs/Exec.v to be runs of the abstract protocol these theorems are about, so the theorems hold of the observed projections (observed_* theorems); histories with membership changes are covered by the node-level rules, correspondence and monitors only.',
   "design_ref": "DESIGN.md 5 (C03)", "note": NODE_NOTE,
   "technique": 'Coq proofs + differential correspondence + state-machine prefix monitor',
  }, "C04": {
-  "level": 'Machine-checked proofs (Coq, no axioms): log matching on the abstract protocol for every reachable state of every cluster size (Props/C04.v), leader append-only; node-level: the request writer emits faithful log slices, followers hold request entries exactly as sent. Tie: per-event differential execution + ledger monitor over every log dumped. Cluster-level tie (Props/AbsTie.v): whole-cluster histories observed on real nodes (static membership, no snapshots) are checked on every run by the executable, proved-sound checker Abs/Exec.v to be runs of the abstract protocol these theorems are about, so the theorems hold of the observed projections (observed_* theorems); histories with membership changes or snapshots are covered by the node-level rules, correspondence and monitors only.',
+  "level": 'Machine-checked proofs (Coq, no axioms): log matching on the abstract protocol for every reachable state of every cluster size (Props/C04.v), leader append-only; node-level: the request writer emits faithful log slices, followers hold request entries exactly as sent. Tie: per-event differential execution + ledger monitor over every log dumped. Cluster-level tie (Props/AbsTie.v): whole-cluster histories observed on real nodes (static membership; snapshots, compaction and snapshot installation included) are checked on every run by the executable, proved-sound checker Abs/Exec.v to be runs of the abstract protocol these theorems are about, so the theorems hold of the observed projections (observed_* theorems); histories with membership changes are covered by the node-level rules, correspondence and monitors only.',
   "design_ref": "DESIGN.md 5 (C04), Appendix E", "note": NODE_NOTE,
   "technique": 'Coq invariant proof on abstract protocol + node rules + differential correspondence + ledger monitor',
  }, "C07": {
@@ -51,7 +51,7 @@ TEXT = {
   "design_ref": "DESIGN.md 5 (C07)", "note": NODE_NOTE,
   "technique": 'Coq proofs of queue/reply rules + differential correspondence on task replies',
  }, "C09": {
-  "level": "Machine-checked proofs (Coq, no axioms) of contiguous apply, snapshot <= commit, compaction only of a snapshotted prefix, retention of what replications still read, fresh views after compaction, entries-or-snapshot for lagging followers, consistent reset on installation. PARTIAL: memory-mapping lifetime under real concurrency is outside the model; the scenario corpus (compaction at a follower's match boundary) and the live driver exercise it.",
+  "level": "Machine-checked proofs (Coq, no axioms) of contiguous apply, snapshot <= commit, compaction only of a snapshotted prefix, retention of what replications still read, fresh views after compaction, entries-or-snapshot for lagging followers, consistent reset on installation. PARTIAL: memory-mapping lifetime under real concurrency is outside the model; the scenario corpus (compaction at a follower's match boundary, a follower that compacts and then leads, installation over a conflicting suffix) and the live driver exercise it. Cluster level: the abstract protocol (Abs/Raft.v) has a snapshot-installation step (the follower's log is replaced by a committed prefix, or kept when it already extends it; compaction is invisible) and leader completeness, state-machine safety, log matching and durability are proved with it; observed whole-cluster histories with snapshots are checked by the proved-sound Abs/Exec.v to be runs of it (Props/AbsTie.v).",
   "design_ref": "DESIGN.md 5 (C09)", "note": NODE_NOTE,
   "technique": 'Coq proofs of snapshot/compaction rules + differential correspondence + targeted schedules',
  }, "C12": {
@@ -70,7 +70,7 @@ TEXT = {
            "flushing, follower flush-before-success and the follower commit rule; plus (when Props/C06.v is present) the cluster-level theorem on "
            "the abstract protocol that every committed entry is durably held by a majority. Tie: per-event differential execution; a monitor counts "
            "durable copies at every commit advance of the simulated cluster. Cluster-level tie (Props/AbsTie.v): whole-cluster histories observed on "
-           "real nodes (static membership, no snapshots; projections include each node's flushed prefix) are checked on every run by the proved-sound "
+           "real nodes (static membership, snapshots included; projections include each node's flushed prefix) are checked on every run by the proved-sound "
            "checker Abs/Exec.v to be runs of the abstract protocol, so committed_durable_on_majority holds of what was observed.",
   "design_ref": "DESIGN.md 5 (C06)", "note": NODE_NOTE,
   "technique": "Coq proofs of commit/flush rules + leader-cache invariant; differential correspondence; durable-majority monitor",
@@ -123,7 +123,7 @@ TEXT = {
            "are what the node model's handlers do to (term, votedFor, role, votes counted); the node model (one Gallina function per Go handler) is "
            "tied to the code on every run by per-event differential execution on a deterministic simulator driving real *Raft values, and a monitor "
            "looks for two leaders in one term on the implementation. PARTIAL where stated: voter-set changes need the overlap hypothesis of C08."
-           " Cluster-level tie (Props/AbsTie.v): whole-cluster histories observed on real nodes (static membership, no snapshots) are checked on every run by the executable, proved-sound checker Abs/Exec.v to be runs of the abstract protocol these theorems are about, so the theorems hold of the observed projections (observed_* theorems); histories with membership changes or snapshots are covered by the node-level rules, correspondence and monitors only.",
+           " Cluster-level tie (Props/AbsTie.v): whole-cluster histories observed on real nodes (static membership; snapshots, compaction and snapshot installation included) are checked on every run by the executable, proved-sound checker Abs/Exec.v to be runs of the abstract protocol these theorems are about, so the theorems hold of the observed projections (observed_* theorems); histories with membership changes are covered by the node-level rules, correspondence and monitors only.",
   "design_ref": "DESIGN.md 4.4, 5 (C01), Appendix C",
   "note": NODE_NOTE,
   "technique": "Coq inductive-invariant proof on abstract vote protocol + per-event differential correspondence of the node model with the real handlers + monitor",
